@@ -131,6 +131,10 @@ impl<const B: Word> Repr<B> {
                 (UBig::ZERO, 0)
             };
             ndigits = int_digits + fract_digits;
+            if ndigits == 0 {
+                // e.g. "0x." : a radix point (and prefix) without any digit
+                return Err(ParseError::NoDigits);
+            }
 
             if fract.is_zero() {
                 int
